@@ -127,6 +127,19 @@ def innermost_tatsu_function(e: BaseException) -> str:
     return name or '?'
 
 
+def innermost_boot_rule(e: BaseException) -> str:
+    """the grammar-language rule (a method of the bootstrap parser) that was being parsed when e was raised"""
+    name = None
+    try:
+        for fr in traceback.extract_tb(e.__traceback__):
+            fn = fr.filename.replace(os.sep, '/')
+            if fn.endswith('/boot/bootstrap.py') and not fr.name.startswith(('_', '<')):
+                name = fr.name
+    except Exception:  # noqa: BLE001
+        pass
+    return name or '?'
+
+
 def class_name(e: BaseException) -> str:
     if isinstance(e, re.error):
         return 're.error'
@@ -470,7 +483,9 @@ class watchdog:
     def __enter__(self):
         import signal
         self._old = signal.signal(signal.SIGPROF, self._fire)
-        signal.setitimer(signal.ITIMER_PROF, self.seconds)
+        # repeating: an exception raised by the handler inside a weakref/GC callback is swallowed
+        # ("Exception ignored in ..."), so keep firing until it propagates
+        signal.setitimer(signal.ITIMER_PROF, self.seconds, 0.25)
         return self
 
     def __exit__(self, *exc):
